@@ -96,3 +96,154 @@ def canon_fields(d):
 def short(v, n=200):
     s = repr(v)
     return s if len(s) <= n else s[:n] + "..."
+
+
+# ---------------------------------------------------------------- bad values
+# Values that cannot be turned into JSON and/or text.  Programs stay JSON: a bad
+# value is a descriptor {"$bad": kind} that the interpreter materialises.
+
+BAD_KINDS = ["str_raises", "repr_raises", "nonstr_key", "tuple_key", "big_int", "neg_big_int", "nan", "inf",
+             "neg_inf", "bytes", "bad_bytes", "surrogate", "deep", "object", "set", "path", "date", "time",
+             "complex", "circular", "str_subclass", "instance", "generator", "function", "exception", "type",
+             "bytes_key", "nested_bad", "datetime", "uuid", "both_raise", "eq_raises", "hash_obj", "decimal"]
+
+
+class StrBomb(object):
+    def __str__(self):
+        raise ValueError("no str for you")
+
+
+class ReprBomb(object):
+    def __repr__(self):
+        raise ValueError("no repr for you")
+
+
+class BothBomb(object):
+    def __str__(self):
+        raise KeyError("no str")
+
+    def __repr__(self):
+        raise KeyError("no repr")
+
+
+class Plain(object):
+    def __init__(self):
+        self.a = 1
+
+
+class MyStr(str):
+    pass
+
+
+def _deep(n):
+    v = 0
+    for _ in range(n):
+        v = [v]
+    return v
+
+
+def materialize(v):
+    """Turn descriptors into the real (bad) objects, recursively."""
+    if isinstance(v, dict):
+        if "$bad" in v and len(v) == 1:
+            return make_bad(v["$bad"])
+        return {k: materialize(x) for k, x in v.items()}
+    if isinstance(v, list):
+        return [materialize(x) for x in v]
+    return v
+
+
+def make_bad(kind):
+    import datetime
+    import decimal
+    import pathlib
+    import uuid
+    if kind == "str_raises":
+        return StrBomb()
+    if kind == "repr_raises":
+        return ReprBomb()
+    if kind == "both_raise":
+        return BothBomb()
+    if kind == "nonstr_key":
+        return {1: "a", "b": 2}
+    if kind == "tuple_key":
+        return {(1, 2): 3}
+    if kind == "bytes_key":
+        return {b"k": 1}
+    if kind == "big_int":
+        return 2 ** 64
+    if kind == "neg_big_int":
+        return -(2 ** 63) - 1
+    if kind == "nan":
+        return float("nan")
+    if kind == "inf":
+        return float("inf")
+    if kind == "neg_inf":
+        return float("-inf")
+    if kind == "bytes":
+        return b"abc"
+    if kind == "bad_bytes":
+        return b"\xff\xfe"
+    if kind == "surrogate":
+        return "lone \ud800 surrogate"
+    if kind == "deep":
+        return _deep(300)
+    if kind == "object":
+        return object()
+    if kind == "set":
+        return {1, 2, 3}
+    if kind == "path":
+        return pathlib.Path("/tmp/x")
+    if kind == "date":
+        return datetime.date(2020, 1, 2)
+    if kind == "time":
+        return datetime.time(1, 2, 3)
+    if kind == "datetime":
+        return datetime.datetime(2020, 1, 2, 3, 4, 5)
+    if kind == "uuid":
+        return uuid.UUID(int=5)
+    if kind == "decimal":
+        return decimal.Decimal("1.5")
+    if kind == "complex":
+        return complex(1, 2)
+    if kind == "circular":
+        a = [1]
+        a.append(a)
+        return a
+    if kind == "str_subclass":
+        return MyStr("sub")
+    if kind == "instance":
+        return Plain()
+    if kind == "generator":
+        return (i for i in range(3))
+    if kind == "function":
+        return make_bad
+    if kind == "exception":
+        return ValueError("as a value")
+    if kind == "type":
+        return dict
+    if kind == "nested_bad":
+        return {"ok": [1, {"deep": StrBomb()}], "s": {1, 2}}
+    if kind == "eq_raises":
+        return [StrBomb(), ReprBomb()]
+    if kind == "hash_obj":
+        return {"k": object()}
+    raise ValueError(kind)
+
+
+def gen_bad(st):
+    return {"$bad": BAD_KINDS[st.choose(len(BAD_KINDS), "badkind")]}
+
+
+def gen_fields_bad(st, names, p_bad, maxn=4, exclude=()):
+    """Like gen_fields, but each value is bad with probability p_bad."""
+    out = {}
+    while len(out) < maxn and st.chance(0.55, "field?"):
+        k = names[st.choose(len(names), "fname")]
+        if k in exclude or k in out:
+            continue
+        if st.chance(p_bad, "bad?"):
+            out[k] = gen_bad(st)
+        else:
+            out[k] = gen_json(st, 0, 1)
+    return out
